@@ -571,7 +571,7 @@ func (s *bState) triggerCompletion(b *Bar) {
 	}
 }
 
-func (s bState) completed() bool {
+func (s *bState) completed() bool {
 	return !s.aborted && s.triggerComplete && s.current == s.total
 }
 
